@@ -158,7 +158,7 @@ pub fn check_hop(t: &Transition, s: &SwapEv, fees: &mantra_dex_std::fee::PoolFee
     }
 }
 
-fn resolve_receiver(w: &World, receiver: &Option<String>, sender: &Addr) -> String {
+pub fn resolve_receiver(w: &World, receiver: &Option<String>, sender: &Addr) -> String {
     match receiver {
         Some(r) => {
             use cosmwasm_std::Api;
